@@ -1,8 +1,74 @@
-(* C15 — Rechunk plans are valid and respect the block-size budget. *)
-From DA Require Import PyBase Rechunk.
+(* C15 — Rechunk plans are valid and respect the block-size budget.
+   Statements only; proofs in theories/Rechunk*.v, CrosswalkFacts.v, IntersectFacts.v.
+   plan_rechunk returns None exactly where the Python raises/asserts; `orders` and
+   `oracle` are the float-derived choices (np.log sort key; ceil(log/log); round(..**..))
+   and every theorem holds for ALL their values. *)
+From DA Require Import PyBase Rechunk RechunkFacts.
 Open Scope Z_scope.
 
-Example C15_crosswalk_example :
-  crosswalk_ok [10;10;10;10;10] [25;5;20] (intersect_1d [10;10;10;10;10] [25;5;20]) = true.
+(* the plan is a non-empty finite list of chunkings of the shape, ending in `new` *)
+Theorem C15_plan_valid :
+  forall orders oracle old new itemsize threshold bsl degree_limit plan shape,
+    layout_ok shape old = true -> layout_ok shape new = true ->
+    plan_rechunk orders oracle old new itemsize threshold bsl degree_limit = Some plan ->
+    plan_valid shape new plan = true.
+Proof. exact plan_valid_thm. Qed.
+
+(* no step has a block larger than max(limit/itemsize, largest old, largest new) —
+   including the steps the degree-bounding pass inserts (repaired: fix 19b762a) *)
+Theorem C15_plan_budget :
+  forall orders oracle old new itemsize threshold bsl degree_limit plan,
+    0 < itemsize ->
+    plan_rechunk orders oracle old new itemsize threshold bsl degree_limit = Some plan ->
+    plan_within_budget old new itemsize bsl plan = true.
+Proof. exact plan_budget_any_rank. Qed.
+
+(* rank <= 1 skips size planning: every step is within the two endpoints *)
+Theorem C15_plan_budget_rank_le1 :
+  forall orders oracle old new itemsize threshold bsl degree_limit plan,
+    plan_rechunk orders oracle old new itemsize threshold bsl degree_limit = Some plan ->
+    (length new <= 1)%nat ->
+    plan_within_endpoints old new plan = true.
+Proof. exact plan_budget_rank_le1. Qed.
+
+(* the crosswalk covers each new block exactly once with contiguous in-bounds pieces
+   of old blocks — zero-size chunks included *)
+Theorem C15_crosswalk_exact :
+  forall old new, nonneg old -> nonneg new -> old <> [] -> zsum old = zsum new ->
+  length (intersect_1d old new) = length new /\
+  forall j pieces, nth_error (intersect_1d old new) j = Some pieces ->
+    pieces <> [] /\
+    Forall (piece_in_bounds old) pieces /\
+    concat (map (piece_positions old) pieces) = seqZ (cum new j) (cum new (S j)).
+Proof. exact intersect_1d_spec. Qed.
+
+(* N-D: every axis of old_to_new passes the checker (the N-D crosswalk is the product) *)
+Theorem C15_old_to_new_grid :
+  forall shape old new,
+  layout_ok shape old = true -> layout_ok shape new = true ->
+  Forall2 (fun on cw => crosswalk_ok (fst on) (snd on) cw = true) (combine old new) (old_to_new old new).
+Proof. exact old_to_new_ok. Qed.
+
+(* soundness of the boolean checker the harness runs on the implementation's output *)
+Theorem C15_crosswalk_checker_sound :
+  forall old new cw, crosswalk_ok old new cw = true ->
+  length cw = length new /\
+  forall j pieces, nth_error cw j = Some pieces ->
+    pieces <> [] /\ Forall (piece_in_bounds old) pieces /\
+    concat (map (piece_positions old) pieces) = seqZ (cum new j) (cum new (S j)).
+Proof. exact crosswalk_sound. Qed.
+
+Example C15_ex_two_step_plan :
+  plan_rechunk [[0%nat];[0%nat];[0%nat];[0%nat]] [] [[1;1;1;1;1;1;1;1];[8]] [[8];[1;1;1;1;1;1;1;1]] 1 1 16 100
+  = Some [[[2;2;2;2];[8]]; [[8];[1;1;1;1;1;1;1;1]]].
 Proof. vm_compute. reflexivity. Qed.
-Print Assumptions C15_crosswalk_example.
+
+Example C15_ex_zero_chunks : crosswalk_ok [2;0;2] [0;4] (intersect_1d [2;0;2] [0;4]) = true.
+Proof. vm_compute. reflexivity. Qed.
+
+Print Assumptions C15_plan_valid.
+Print Assumptions C15_plan_budget.
+Print Assumptions C15_plan_budget_rank_le1.
+Print Assumptions C15_crosswalk_exact.
+Print Assumptions C15_old_to_new_grid.
+Print Assumptions C15_crosswalk_checker_sound.
